@@ -480,21 +480,26 @@ Print Assumptions C20_ex_ctor_body.
 
 (* what an accepted call stores: descriptor from the EXPANDED length, the
    segmented data little endian and padded to even length; refusal iff a guard
-   fails or the segments are malformed; every value of the descriptor fits VR
-   US and number_of_entries gives the expanded length back EXACTLY for tables
-   of 1 .. 2^16 entries (a table that expands to nothing or to more than 2^16
-   entries is accepted by the code but is no valid argument: see
-   C20_segmented_oversize_not_writable) *)
+   fails, the segments are malformed or they expand to no entry / more than
+   2^16 entries (fix cf58852, D110).  Hence EVERY accepted segmented table (of
+   unsigned entries of its width) can be written: every value of the descriptor
+   fits VR US, number_of_entries gives the expanded length back, which lies in
+   1 .. 2^16, and segmented_lut_data returns the caller's segmented data (8 and
+   16 bit, odd and even lengths) *)
 Theorem C20_segmented_lut_spec : forall bits first data,
   (forall d s n, segmented_lut bits first data = Ok (d, s, n) ->
-     (segmented_ok bits first data = true /\ seg_count data 0 = Ok n /\
+     (segmented_ok bits first data = true /\ seg_count data 0 = Ok n /\ n <> 0%Z /\ (n <= 65536)%Z /\
       d = [entries_field n; first; bits]%Z /\ s = palette_store bits data /\ Z.even (zlen s) = true) /\
-     ((forallb fits_us d = true /\ entries_read (hd 0%Z d) = n) <-> (1 <= n <= 65536)%Z)) /\
+     ((forall v, In v data -> (0 <= v < 2 ^ bits)%Z) ->
+      forallb fits_us d = true /\ entries_read (hd 0%Z d) = n /\ (1 <= n <= 65536)%Z /\
+      segmented_read bits s = data)) /\
   ((exists k, segmented_lut bits first data = Err k) <->
-   segmented_ok bits first data = false \/ exists k, seg_count data 0 = Err k).
+   segmented_ok bits first data = false \/ (exists k, seg_count data 0 = Err k) \/
+   (exists n, seg_count data 0 = Ok n /\ (n = 0 \/ 65536 < n)%Z)).
 Proof.
   intros bits first data. split; [|exact (segmented_lut_refused_iff bits first data)].
-  intros d s n H. split; [exact (segmented_lut_gen_ok _ _ _ _ _ _ _ H) | exact (segmented_descriptor_iff _ _ _ _ _ _ H)].
+  intros d s n H. split; [exact (segmented_lut_gen_ok _ _ _ _ _ _ _ H)|].
+  intros Hr. exact (segmented_accepted_writable _ _ _ _ _ _ Hr H).
 Qed.
 Print Assumptions C20_segmented_lut_spec.
 
@@ -511,13 +516,18 @@ Theorem C20_segmented_stale_length_refuted :
 Proof. exact (conj segmented_stale_differs_iff segmented_stale_refuted). Qed.
 Print Assumptions C20_segmented_stale_length_refuted.
 
-(* residue of the CURRENT code: segments that expand to more than 2^16 entries
-   are accepted and give a descriptor that cannot be written *)
-Theorem C20_segmented_oversize_not_writable :
-  exists d s n, segmented_lut 16 0 [0; 65535; 5; 0; 65535; 5]%Z = Ok (d, s, n) /\ n = 131070%Z /\
-                forallb fits_us d = false.
-Proof. exact segmented_oversize. Qed.
-Print Assumptions C20_segmented_oversize_not_writable.
+(* segments that expand to more than 2^16 entries or to none: refused now;
+   the constructor before fix cf58852 (D110) accepted them with a descriptor
+   that cannot be written / reads back as 2^16 entries *)
+Theorem C20_segmented_oversize_refused :
+  (exists d s n, segmented_lut_unguarded 16 0 [0; 65535; 5; 0; 65535; 5]%Z = Ok (d, s, n) /\ n = 131070%Z /\
+                 forallb fits_us d = false) /\
+  (exists d s n, segmented_lut_unguarded 8 0 [0; 0; 5]%Z = Ok (d, s, n) /\ n = 0%Z /\
+                 entries_read (hd 0%Z d) = 65536%Z) /\
+  segmented_lut 16 0 [0; 65535; 5; 0; 65535; 5]%Z = Err "ValueError" /\
+  segmented_lut 8 0 [0; 0; 5]%Z = Err "ValueError".
+Proof. exact segmented_unguarded_refuted. Qed.
+Print Assumptions C20_segmented_oversize_refused.
 
 (* ------------------------------------------------------------------ *)
 (* 12. the pixel measures a Segmentation records (seg/sop.py __init__)  *)
@@ -575,8 +585,10 @@ Print Assumptions C20_displayed_area_inplace_sort_refuted.
 
 Example C20_ex_segmented_measures_area :
   run_segmented_lut 16 0 [0; 1; 0; 1; 65535; 65535]%Z =
-    VL [vz_list [0; 0; 16]%Z; vz_list [0; 0; 1; 0; 0; 0; 1; 0; 255; 255; 255; 255]%Z; VZ 65536] /\
-  run_segmented_lut 8 0 [0; 3; 5]%Z = VL [vz_list [3; 0; 8]%Z; vz_list [0; 3; 5; 0]%Z; VZ 3] /\
+    VL [vz_list [0; 0; 16]%Z; vz_list [0; 0; 1; 0; 0; 0; 1; 0; 255; 255; 255; 255]%Z; VZ 65536;
+        vz_list [0; 1; 0; 1; 65535; 65535]%Z] /\
+  run_segmented_lut 8 0 [0; 3; 5]%Z = VL [vz_list [3; 0; 8]%Z; vz_list [0; 3; 5; 0]%Z; VZ 3; vz_list [0; 3; 5]%Z] /\
+  run_segmented_lut 8 0 [0; 0; 5]%Z = VErr "ValueError" /\
   run_segmented_lut 16 0 [1; 5; 100]%Z = VErr "IndexError" /\
   run_segmented_lut 16 0 [0; 1; 7; 1; 1; 100]%Z = VErr "ValueError" /\
   run_segmented_lut 16 0 [0; 1; 5; 2; 3; 4]%Z = VErr "ValueError" /\
